@@ -82,6 +82,80 @@ theorem ext_po_of_gate (path : List Char) (hg : knownExtension path = true) (hsu
   · rw [hg] at h1
     exact absurd (List.suffix_of_suffix_length_le h2 h1 (by decide)) (by decide)
 
+/-- the base names for which `os.path.splitext` yields no `.po` although they end in `.po`: dots followed by `po` -/
+theorem splitext_po_failure (b : List Char) (hs : ".po".toList <:+ b) (he : (splitext b).2 ≠ ".po".toList) :
+    ∃ n, b = List.replicate (n + 1) '.' ++ "po".toList := by
+  obtain ⟨root, hroot⟩ := hs
+  subst hroot
+  have hrev : (root ++ ".po".toList).reverse = 'o' :: 'p' :: '.' :: root.reverse := by simp
+  have htw : ((root ++ ".po".toList).reverse.takeWhile (· ≠ '.')) = ['o', 'p'] := by
+    rw [hrev]; simp [List.takeWhile]
+  unfold splitext at he
+  simp only [htw] at he
+  have hlen : (root ++ ".po".toList).length = root.length + 3 := by simp
+  have h2 : ¬ ((['o', 'p'] : List Char).length = (root ++ ".po".toList).length) := by rw [hlen]; simp
+  rw [if_neg h2] at he
+  have htake : (root ++ ".po".toList).take ((root ++ ".po".toList).length - (['o', 'p'] : List Char).length - 1) = root := by
+    rw [hlen]; simp
+  have hdrop : (root ++ ".po".toList).drop ((root ++ ".po".toList).length - (['o', 'p'] : List Char).length - 1) = ".po".toList := by
+    rw [hlen]; simp
+  rw [htake, hdrop] at he
+  by_cases hall : (root.all (· = '.')) = true
+  · refine ⟨root.length, ?_⟩
+    have : root = List.replicate root.length '.' := by
+      apply List.eq_replicate_iff.2
+      refine ⟨rfl, ?_⟩
+      intro c hc
+      have := List.all_eq_true.1 hall c hc
+      simpa using this
+    rw [List.replicate_succ', ← this]
+    simp
+  · rw [if_neg hall] at he
+    exact absurd rfl he
+
+
+theorem splitOn_nosep (sep : Char) (r : List Char) (h : ∀ x ∈ r, x ≠ sep) : splitOn sep r = [r] := by
+  induction r with
+  | nil => rfl
+  | cons c t ih =>
+    have hc : c ≠ sep := h c (by simp)
+    have := ih (fun x hx => h x (by simp [hx]))
+    simp [splitOn, hc, this]
+
+/-- a string without `/` that ends the path also ends the base name -/
+theorem suffix_basename (s p : List Char) (hs : ∀ x ∈ s, x ≠ '/') (h : s <:+ p) : s <:+ basename p := by
+  unfold basename
+  induction p with
+  | nil =>
+    have : s = [] := by simpa using h
+    subst this; exact List.nil_suffix
+  | cons c r ih =>
+    rcases List.suffix_cons_iff.1 h with heq | hsr
+    · subst heq
+      rw [splitOn_nosep '/' (c :: r) hs]
+      simp
+    · have ihr := ih hsr
+      cases hsp : splitOn '/' r with
+      | nil => exact absurd hsp (splitOn_ne_nil '/' r)
+      | cons hd t =>
+        rw [hsp] at ihr
+        simp only [splitOn, hsp]
+        split
+        · simpa [List.getLast?_cons] using ihr
+        · cases t with
+          | nil =>
+            simp only [List.getLast?_cons, List.getLast?_nil, Option.getD_none, Option.getD_some] at ihr ⊢
+            exact ihr.trans (List.suffix_cons c hd)
+          | cons t1 t2 =>
+            simpa [List.getLast?_cons] using ihr
+
+/-- the paths on which `check_language` can fail its assertion: `…/<dots>po` -/
+theorem assertion_paths (path : List Char) (hsuf : ".po".toList.isSuffixOf path = true)
+    (hext : (splitext (basename path)).2 ≠ ".po".toList) :
+    ∃ n, basename path = List.replicate (n + 1) '.' ++ "po".toList :=
+  splitext_po_failure (basename path)
+    (suffix_basename _ _ (by decide) (List.isSuffixOf_iff_suffix.1 hsuf)) hext
+
 theorem stagePath_error (opt : Option Language) (path : List Char) (e : LErr) (h : stagePath opt path = .error e) :
     e = .assertion ∧ opt = none ∧ ".po".toList.isSuffixOf path = true ∧ (splitext (basename path)).2 ≠ ".po".toList := by
   unfold stagePath at h
